@@ -251,11 +251,15 @@ class Rig:
 
         def fw(proc, kind):
             deny = set(firewalls.get(proc, {}).get(kind, ()))
-            if not deny and not firewalls.get(proc, {}).get('always'):
+            # 'raise': names for which the RECEIVE predicate fails (it looks up a keyword the event does not carry)
+            boom = set(firewalls.get(proc, {}).get('raise', ())) if kind == 'recv' else set()
+            if not deny and not boom and not firewalls.get(proc, {}).get('always'):
                 return None
 
             def check(event, sock):
                 self.fw_calls.append((proc, kind, event.name))
+                if event.name in boom:
+                    return event.kwargs['no-such-token'] == 'secret'
                 return event.name not in deny
             return check
 
